@@ -48,7 +48,7 @@ namespace MQ
 def PC.neutral : PC → Bool
   | .st _ _ | .g1 _ _ _ | .g2 _ _ _ _ _ _ | .g3 _ _ _ _ _ | .tcs _ _ | .tcc _ _ _ | .tcl _ | .rf _ _ | .hd _ _
   | .tg _ | .wr _ _ | .ts _ _
-  | .is1 _ | .r1 _ _ | .r2 _ _ | .r3 _ _ | .r3b _ _ | .r4 _ | .r5 _ _ | .r6 _ | .rd _ _ | .rc _ _ _ | .r8 _ _
+  | .r1 _ _ | .r2 _ _ | .r3 _ _ | .r3b _ _ | .r4 _ | .r5 _ _ | .r6 _ | .rd _ _ | .rc _ _ _ | .r8 _ _
   | .r9 _ _ _ | .fg _ _ | .v1 _ | .v2 _ | .v3 _ | .vw _ _ | .vd _ _ | .v4 _ _
   | .a1 | .a2 _ | .a3 _ _ _ | .rr2 _ _ => false
   | _ => true
